@@ -177,6 +177,8 @@ EXTRA_PROGRAMS = [
     'x = a.if; x = a.class; x = {if: 1, class: 2, get: 3, set: 4}; x = a.get; y = a.set;',
     'x = 0x1F + 017 + 1.5e+10 + .5 + 5. + 0;',
     'x = /[/\\]]+/.test(y) / 2 / z;',
+    # characters outside the basic multilingual plane (one code point, two UTF-16 units) before other tokens on the line
+    'var s = "\U0001F600"; foo(s); /* \U0001D54F */ bar(/\U0001F600/);',
     # characters that str.splitlines breaks at but ES5 does not, inside string / comment tokens
     'var s = "a\x0cb\x85c", t = 2;\nshow(s, t); /* p\x0bq\x1cr */ u = 3;\nv = 4;',
     'var élève = 1, $ = 2, _x1 = 3, π = 4;',
